@@ -181,6 +181,11 @@ def table_evidence():
     pkgw = [(fn, nm) for fn, f in tb.items() if not f["init_only"] for k, nm, rw, h in f["items"]
             if k == "IAcc" and rw == "W" and nm.startswith("pkg.")]
     for fn, nm in sorted(set(pkgw)):
+        if nm.endswith("[]"):
+            findings.append("%s writes, through a local pointer that may have been taken from it, an object of the package-level "
+                            "variable %s (e.g. y := table[k].F without a copy, then y.G = ..): the process-wide object is changed "
+                            "for every module set" % (fn, nm[4:-2]))
+            continue
         findings.append("package-level variable %s written outside init, in %s (a table shared by all module sets of the process "
                         "is written during processing; for a variable of an imported type such as sync.Map a method call that "
                         "is not known to be read-only counts as a write, race free or not)" % (nm[4:], fn))
